@@ -6,6 +6,7 @@ import PyGqlModel.PrintString
 import PyGqlModel.Lemmas.LexChars
 import PyGqlModel.Lemmas.LexBlockEscape
 import PyGqlModel.Spec.BlockStringSpec
+import PyGqlModel.Lemmas.LexBlockLayout
 
 namespace PyGql.Props.C03
 open PyGql.Lex PyGql.PrintString
@@ -100,14 +101,42 @@ def BlockRoundtripStatement : Prop :=
     printer puts on the following line (indentation + closing quotes), scanning `escaped(v) LF w` returns `v` followed by
     what scanning `LF w` returns; in particular no `"`/`\` at the end of `v` can fuse with the closing quotes
     (defect R3 for the one-line form is this statement with the appended LF).
-    MISSING for the full statement: the LAYOUT half — `BlockStringValue (LF (P·l₁) LF … LF (P·lₙ) LF Q) = v` for
-    canonical `v` with lines `lᵢ` and blank prefixes `P`, `Q` (DESIGN lemma `indent_common_shift`:
-    `commonIndent (map (P ++ ·) ls) = |P| + commonIndent ls`, `splitLines (joinLF ls) = ls`, `stripBlank`).
+    MISSING for the full statement: the COMPOSITION of the layout half — `BlockStringValue (LF (P·l₁) LF … LF (P·lₙ) LF Q) = v`
+    for canonical `v` with lines `lᵢ` and blank prefixes `P`, `Q`. Its three ingredients are proved below
+    (`layout_splitLines_joinLF`, `layout_commonIndent_shift`, `layout_stripBlank`); what is open is the characterisation of
+    the range of `BlockStringValue` that makes the shifted minimum equal to `|P|`.
     That half is covered by the correspondence + direct oracle (depth 0–3, 7 indents, both paths) and the instances below. -/
 theorem block_roundtrip_partial (n : Nat) (v w : Text) (hv : ∀ c ∈ v, blockChar c = true) :
     readBlockBody n 0 (escapeTripleQuotes v ++ 10 :: w) =
       (readBlockBody n 0 (10 :: w)).map (fun p => (v ++ p.1, p.2)) :=
   readBlockBody_escape n w v 0 (Nat.zero_le _) hv
+
+/-! ### the LAYOUT half of `block_roundtrip`: the three lemmas of DESIGN §5 C03 (all proved); what is still missing
+    is only their composition with the characterisation of the range of `BlockStringValue` (first / last line non-blank,
+    some non-blank tail line with indentation 0), i.e. `parseBlockString (LF (P·l₁) LF … (P·lₙ) LF Q) = joinLF [l₁ … lₙ]`. -/
+
+/-- `splitLines (joinLF ls) = ls`: the printer's LF-joined lines are exactly what the parser splits -/
+theorem layout_splitLines_joinLF (l : Text) (ls : List Text) (h : ∀ x ∈ l :: ls, BlockString.IsLine x) :
+    BlockString.splitLines (BlockString.joinLF (l :: ls)) = l :: ls :=
+  BlockString.splitLines_joinLF l ls h
+
+/-- `commonIndent (map (P ++ ·) ls) = |P| + commonIndent ls` for a layout prefix `P` over {space, tab}:
+    `_indent` shifts the common indentation by exactly `|P|`, blank lines stay out of the minimum -/
+theorem layout_commonIndent_shift (p : Text) (hp : BlockString.IsBlank p) (ls : List Text) :
+    (ls.map (p ++ ·)).foldl BlockString.indentStep none = (ls.foldl BlockString.indentStep none).map (p.length + ·) :=
+  BlockString.foldl_indentStep_prefix p hp ls none
+
+/-- `stripBlank`: the layout's added first line (empty) and last line (`Q`, blank) are removed, the value's own
+    non-blank first and last lines stop the removal -/
+theorem layout_stripBlank (b l : Text) (ls : List Text) (hb : BlockString.IsBlank b)
+    (hl : Spec.onlyWhiteSpace l = false) :
+    BlockString.popLeading (b :: l :: ls) = l :: ls ∧
+    BlockString.popTrailing (ls ++ [l] ++ [b]) = ls ++ [l] :=
+  ⟨by rw [BlockString.popLeading_blank b _ hb, BlockString.popLeading_nonblank l ls hl],
+   by rw [BlockString.popTrailing_blank _ b hb, BlockString.popTrailing_nonblank ls l hl]⟩
+
+/-- non-vacuity: two value lines under a two-space prefix -/
+example : ([[97], [32, 98]].map ([32, 32] ++ ·)).foldl BlockString.indentStep none = some 2 := by decide
 
 /-- non-vacuity / instances of the full statement (value `  a"""\` + LF + `b"`, i.e. leading blanks, an embedded triple
     quote, trailing backslash and quote): depth 0 with a 2-space indent, depth 2 with a TAB indent, description path -/
